@@ -115,6 +115,21 @@ def run(c, replay):
                                     final_gvt_ticks=gvt_ticks, termination_time=pr["tend"], program=pr["text"], config=C.describe(run_)), True)
                         break
         nontriv += 1
+    # ---- LP level, deterministic: scripted late deliveries and cancellations on one worker; after every script line a recorded termination
+    # time must belong to a state that still exists (harness/drv_lp.c check_termination): a rollback that undoes the event on which the
+    # predicate first held must clear it, whatever the undone entries look like
+    lpruns = C.lp_campaign(c, ctx, r, 10 if c.tier == "quick" else 150, S.mask("ROLLBACK"), low_targets=True)
+    c.cov.update(C.worker_report(c, lpruns))
+    nrb = 0
+    for run_ in lpruns:
+        nrb += sum(1 for x in run_["trace"] if x["kind"] == "ROLLBACK")
+        bad = [l for l in run_["res"].out.split("\n") if l.startswith("TERMBAD")]
+        if bad and not any(v[0] == "termination-time-survives-rollback" for v in c.violations):
+            k = int(bad[0].split()[1])
+            c.violation("termination-time-survives-rollback", dict(kind="property", what="LP %s is accounted as terminated at tick %s although the state on which its "
+                        "predicate held has been rolled back (predicate false on its current state)" % (bad[0].split()[2], bad[0].split()[3]),
+                        program=run_["prog"]["text"], script=run_["script"][:k], checkpoint_interval=run_["cfg"][1], how="harness/drv_lp <program> <ckpt> < script"), True)
+    c.cov.update(lp_level_runs=len(lpruns), lp_level_rollbacks=nrb)
     C.finish(c, ctx)
     c.cov.update(evaluations=len(runs), distinct_nontrivial=nontriv, runs_returned=ok, votes_seen=votes,
                  rule="interpreter programs with predicate 'count >= target' (per-LP targets, true at init, first true at timestamp 0) and optional "
